@@ -25,8 +25,10 @@ import (
 	authtypes "github.com/cosmos/cosmos-sdk/x/auth/types"
 	"pgregory.net/rapid"
 
+	auctypes "github.com/comdex-official/comdex/x/auctionsV2/types"
 	lendkeeper "github.com/comdex-official/comdex/x/lend/keeper"
 	lendtypes "github.com/comdex-official/comdex/x/lend/types"
+	liqv2types "github.com/comdex-official/comdex/x/liquidationsV2/types"
 
 	"verif/rec"
 	"verif/world"
@@ -46,6 +48,15 @@ type ldCfg struct {
 	NUsers int       `json:"n_users"`
 	Fund   string    `json:"pool_funding"`
 	Res    string    `json:"reserve_funding"`
+	Liq    *ldLiq    `json:"liquidation,omitempty"`
+}
+
+// ldLiq switches second-generation liquidation of borrows on for the lend app.
+type ldLiq struct {
+	Batch    uint64 `json:"batch_size"`
+	Duration uint64 `json:"auction_duration_seconds"`
+	Premium  string `json:"premium"`
+	Discount string `json:"discount"`
 }
 
 type ldOp struct {
@@ -80,6 +91,12 @@ type ldMachine struct {
 	ok    map[string]int
 	// statistics
 	nInter, nStable, nAccrued, nRewarded, nLtvEdge int
+	// liquidation
+	unsafeFor  map[uint64]int // borrow id -> consecutive sweeps it has been unsafe and not seized
+	nSeized    int
+	nSeizedX   int // cross-pool
+	nNearSafe  int // borrows within 2% below their threshold that survived a sweep
+	nAucClosed int
 }
 
 func (m *ldMachine) fail(assertion, ctx, f string, a ...interface{}) {
@@ -106,7 +123,7 @@ func genLdCfg(rt *rapid.T) ldCfg {
 }
 
 func newLdMachine(t rec.TB, r *rec.Rec, prop string, cs *ldCase) *ldMachine {
-	m := &ldMachine{t: t, r: r, prop: prop, cs: cs, ok: map[string]int{}}
+	m := &ldMachine{t: t, r: r, prop: prop, cs: cs, ok: map[string]int{}, unsafeFor: map[uint64]int{}}
 	cfg := &cs.Cfg
 	m.c = world.NewChain(world.Options{Seed: cfg.Seed, NumAccs: cfg.NUsers + 1})
 	c := m.c
@@ -199,6 +216,15 @@ func newLdMachine(t rec.TB, r *rec.Rec, prop string, cs *ldCase) *ldMachine {
 			}
 		}
 	}
+	if l := cfg.Liq; l != nil {
+		c.App.NewliqKeeper.SetParams(c.Ctx, liqv2types.Params{LiquidationBatchSize: l.Batch})
+		c.App.NewaucKeeper.SetAuctionParams(c.Ctx, auctypes.AuctionParams{AuctionDurationSeconds: l.Duration, Step: sdk.MustNewDecFromStr("0.1"),
+			WithdrawalFee: sdk.MustNewDecFromStr("0.0"), ClosingFee: sdk.MustNewDecFromStr("0.0"), MinUsdValueLeft: 100000, BidFactor: sdk.MustNewDecFromStr("0.01"),
+			LiquidationPenalty: sdk.MustNewDecFromStr("0.1"), AuctionBonus: sdk.MustNewDecFromStr("0.05")})
+		must(c.App.NewliqKeeper.WhitelistLiquidation(c.Ctx, liqv2types.LiquidationWhiteListing{AppId: m.app, Initiator: true, IsDutchActivated: true,
+			DutchAuctionParam:  &liqv2types.DutchAuctionParam{Premium: sdk.MustNewDecFromStr(l.Premium), Discount: sdk.MustNewDecFromStr(l.Discount), DecrementFactor: sdk.NewInt(1)},
+			IsEnglishActivated: false, EnglishAuctionParam: &liqv2types.EnglishAuctionParam{DecrementFactor: sdk.NewInt(1)}, KeeeperIncentive: sdk.MustNewDecFromStr("0.0")}))
+	}
 	if cfg.Res != "" {
 		if res := mustInt(cfg.Res); res.IsPositive() {
 			funder := c.Accs[cfg.NUsers].Addr.String()
@@ -264,8 +290,9 @@ func (m *ldMachine) genOp(rt *rapid.T, i int) ldOp {
 	}
 	for _, b := range borrows {
 		if b.InterestAccumulated.GTE(sdk.OneDec()) && !b.IsLiquidated && rapid.IntRange(0, 3).Draw(rt, lbl("payinterest")) == 0 {
-			l, _ := m.k.GetLend(c.Ctx, b.LendingID)
-			return ldOp{K: "repay", U: m.userIdx(l.Owner), ID: b.ID, A: b.InterestAccumulated.TruncateInt().String()}
+			if l, lok := m.k.GetLend(c.Ctx, b.LendingID); lok && m.userIdx(l.Owner) >= 0 {
+				return ldOp{K: "repay", U: m.userIdx(l.Owner), ID: b.ID, A: b.InterestAccumulated.TruncateInt().String()}
+			}
 		}
 	}
 	if len(borrows) > 0 && len(lends) > 0 && rapid.IntRange(0, 5).Draw(rt, lbl("touchlend")) == 0 {
@@ -273,8 +300,59 @@ func (m *ldMachine) genOp(rt *rapid.T, i int) ldOp {
 		l := lends[rapid.IntRange(0, len(lends)-1).Draw(rt, lbl("lender"))]
 		return ldOp{K: "calc", U: m.userIdx(l.Owner)}
 	}
+	if cfg.Liq != nil {
+		kinds = append(kinds, "crash", "crash", "crash", "block", "block", "liqmsg", "liqmsg", "bid", "bid", "bid")
+	}
 	k := rapid.SampledFrom(kinds).Draw(rt, lbl("kind"))
 	op := ldOp{K: k}
+	switch k {
+	case "crash":
+		// move a price so that some borrow ends near or beyond its liquidation threshold
+		op.K = "price"
+		if len(borrows) == 0 {
+			return ldOp{K: "block", Dt: 5}
+		}
+		b := borrows[rapid.IntRange(0, len(borrows)-1).Draw(rt, lbl("victim"))]
+		pair := m.pairByID(b.PairID)
+		op.Asset = m.assetIdx(pair.AssetIn)
+		tw, _ := c.App.MarketKeeper.GetTwa(c.Ctx, cfg.Assets[op.Asset].ID)
+		thr, _ := m.thresholdOf(b)
+		ratio := m.ratioOf(b)
+		// the collateral price at which ratio == threshold is price*ratio/threshold; land within -3% .. +3% of it, or far beyond
+		edge := new(big.Rat).Mul(new(big.Rat).SetUint64(tw.Twa), new(big.Rat).Quo(ratio, thr))
+		pm := rapid.SampledFrom([]int64{970, 990, 999, 1000, 1001, 1010, 1030, 700}).Draw(rt, lbl("permille"))
+		edge.Mul(edge, big.NewRat(pm, 1000))
+		f, _ := edge.Float64()
+		op.Price = uint64(f) + uint64(rapid.IntRange(0, 1).Draw(rt, lbl("d")))
+		if op.Price == 0 {
+			op.Price = 1
+		}
+		return op
+	case "liqmsg":
+		if len(borrows) == 0 {
+			return ldOp{K: "block", Dt: 5}
+		}
+		op.U = rapid.IntRange(0, cfg.NUsers-1).Draw(rt, lbl("user"))
+		op.ID = borrows[rapid.IntRange(0, len(borrows)-1).Draw(rt, lbl("borrow"))].ID
+		return op
+	case "bid":
+		as := c.App.NewaucKeeper.GetAuctions(c.Ctx)
+		if len(as) == 0 {
+			return ldOp{K: "block", Dt: 6}
+		}
+		a := as[rapid.IntRange(0, len(as)-1).Draw(rt, lbl("auction"))]
+		op.U = rapid.IntRange(0, cfg.NUsers-1).Draw(rt, lbl("user"))
+		op.ID = a.AuctionId
+		switch rapid.IntRange(0, 3).Draw(rt, lbl("bk")) {
+		case 0:
+			op.A = clampPos(a.DebtToken.Amount.QuoRaw(3)).String()
+		case 1:
+			op.A = clampPos(a.DebtToken.Amount.AddRaw(rapid.Int64Range(-1, 1).Draw(rt, lbl("d")))).String()
+		default:
+			op.A = a.DebtToken.Amount.MulRaw(2).String()
+		}
+		return op
+	}
 	amounts := []string{"1", "1000000", "5000001", "50000000", "123456789", "1000000000", "1000000000", "999999999999"}
 	inPool := [2][]int{{0, 1, 2}, {3, 0, 2}}
 	switch k {
@@ -400,7 +478,11 @@ func (m *ldMachine) genOp(rt *rapid.T, i int) ldOp {
 		if !ok {
 			return ldOp{K: "block", Dt: 3600}
 		}
-		l, _ := m.k.GetLend(c.Ctx, b.LendingID)
+		l, lok := m.k.GetLend(c.Ctx, b.LendingID)
+		if !lok || m.userIdx(l.Owner) < 0 {
+			// the lend position of a seized borrow can be gone; the borrow then only waits for its auction
+			return ldOp{K: "block", Dt: 6}
+		}
 		op.ID, op.U = b.ID, m.userIdx(l.Owner)
 		if rapid.IntRange(0, 19).Draw(rt, lbl("stray")) == 0 {
 			op.U = rapid.IntRange(0, cfg.NUsers-1).Draw(rt, lbl("user"))
@@ -439,10 +521,17 @@ func (m *ldMachine) apply(i int, op ldOp) {
 	c, cfg := m.c, &m.cs.Cfg
 	switch op.K {
 	case "block":
+		var pre *ldLiqSnap
+		if cfg.Liq != nil {
+			pre = m.liqSnap()
+		}
 		if err := c.NextBlockRecover(time.Duration(op.Dt) * time.Second); err != nil {
 			m.fail(m.prop+".block-hook-panic", "block", "step %d: %v", i, err)
 		}
 		m.ok["block"]++
+		if pre != nil {
+			m.liqObserveLend(i, op, pre, true)
+		}
 		m.invariants(i, op)
 		return
 	case "price":
@@ -507,6 +596,15 @@ func (m *ldMachine) apply(i int, op ldOp) {
 		}
 	case "calc":
 		msg = lendtypes.NewMsgCalculateInterestAndRewards(from)
+	case "liqmsg":
+		msg = liqv2types.NewMsgLiquidateInternalKeeperRequest(c.Accs[op.U].Addr, 1, op.ID)
+	case "bid":
+		a, err := c.App.NewaucKeeper.GetAuction(c.Ctx, op.ID)
+		if err != nil {
+			m.invariants(i, op)
+			return
+		}
+		msg = auctypes.NewMsgPlaceMarketBid(from, op.ID, sdk.NewCoin(a.DebtToken.Denom, amt))
 	default:
 		panic("unknown lend op " + op.K)
 	}
@@ -518,7 +616,19 @@ func (m *ldMachine) apply(i int, op ldOp) {
 	for _, l := range m.k.GetAllLend(c.Ctx) {
 		lendsBefore[l.ID] = l
 	}
+	var liqPre *ldLiqSnap
+	if cfg.Liq != nil && (op.K == "liqmsg" || op.K == "bid") {
+		liqPre = m.liqSnap()
+	}
 	_, err := c.Deliver(msg)
+	if liqPre != nil && op.K == "liqmsg" {
+		m.liqObserveLend(i, op, liqPre, false)
+	}
+	if liqPre != nil && op.K == "bid" && err == nil {
+		if a := len(c.App.NewaucKeeper.GetAuctions(c.Ctx)); a < liqPre.aucs {
+			m.nAucClosed += liqPre.aucs - a
+		}
+	}
 	if err != nil {
 		if debugErrs {
 			e := err.Error()
@@ -568,6 +678,170 @@ func (m *ldMachine) apply(i int, op ldOp) {
 		}
 	}
 	m.invariants(i, op)
+}
+
+
+// ---- liquidation of borrows (second-generation liquidation module) ----
+
+// thresholdOf returns the liquidation threshold that applies to borrow b: the collateral asset's, times the
+// bridged transit asset's for a cross-pool borrow.
+func (m *ldMachine) thresholdOf(b lendtypes.BorrowAsset) (*big.Rat, string) {
+	cfg := &m.cs.Cfg
+	pair := m.pairByID(b.PairID)
+	in := m.assetIdx(pair.AssetIn)
+	thr, _ := new(big.Rat).SetString(cfg.Assets[in].Ltv)
+	thr.Add(thr, big.NewRat(5, 100))
+	kind := "same-pool"
+	if b.BridgedAssetAmount.Amount.IsPositive() {
+		kind = "cross-pool"
+		for i := range cfg.Assets {
+			if ldDenom(i) == b.BridgedAssetAmount.Denom {
+				t, _ := new(big.Rat).SetString(cfg.Assets[i].Ltv)
+				t.Add(t, big.NewRat(5, 100))
+				thr.Mul(thr, t)
+				kind = fmt.Sprintf("cross-pool,transit=asset%d", i+1)
+			}
+		}
+	}
+	return thr, kind
+}
+
+// ratioOf returns debt value / collateral value of b at the oracle prices in force.
+func (m *ldMachine) ratioOf(b lendtypes.BorrowAsset) *big.Rat {
+	c, cfg := m.c, &m.cs.Cfg
+	pair := m.pairByID(b.PairID)
+	pin, _ := c.App.MarketKeeper.GetTwa(c.Ctx, cfg.Assets[m.assetIdx(pair.AssetIn)].ID)
+	pout, _ := c.App.MarketKeeper.GetTwa(c.Ctx, cfg.Assets[m.assetIdx(pair.AssetOut)].ID)
+	debt := new(big.Rat).SetInt(b.AmountOut.Amount.Add(b.InterestAccumulated.TruncateInt()).BigInt())
+	debt.Mul(debt, new(big.Rat).SetUint64(pout.Twa))
+	coll := new(big.Rat).Mul(new(big.Rat).SetInt(b.AmountIn.Amount.BigInt()), new(big.Rat).SetUint64(pin.Twa))
+	if coll.Sign() == 0 {
+		return new(big.Rat).SetInt64(1 << 40)
+	}
+	return debt.Quo(debt, coll)
+}
+
+type ldLiqSnap struct {
+	borrows map[uint64]lendtypes.BorrowAsset
+	custody map[string]sdk.Int // auction module balance per asset denom
+	locked  int
+	aucs    int
+}
+
+func (m *ldMachine) liqSnap() *ldLiqSnap {
+	c := m.c
+	s := &ldLiqSnap{borrows: map[uint64]lendtypes.BorrowAsset{}, custody: map[string]sdk.Int{}}
+	for _, b := range m.k.GetAllBorrow(c.Ctx) {
+		s.borrows[b.ID] = b
+	}
+	for i := range m.cs.Cfg.Assets {
+		s.custody[ldDenom(i)] = c.ModBal(auctypes.ModuleName, ldDenom(i))
+	}
+	s.locked = len(c.App.NewliqKeeper.GetLockedVaults(c.Ctx))
+	s.aucs = len(c.App.NewaucKeeper.GetAuctions(c.Ctx))
+	return s
+}
+
+// liqObserve compares the borrows before and after a sweep (block) or a liquidate message.
+func (m *ldMachine) liqObserveLend(i int, op ldOp, pre *ldLiqSnap, sweep bool) {
+	c := m.c
+	now := m.k.GetAllBorrow(c.Ctx)
+	seizedByDenom := map[string]sdk.Int{}
+	newly := 0
+	one := new(big.Rat).SetInt64(1)
+	for _, b := range now {
+		was, existed := pre.borrows[b.ID]
+		thr, kind := m.thresholdOf(b)
+		ratio := m.ratioOf(b)
+		if b.IsLiquidated && existed && !was.IsLiquidated {
+			newly++
+			m.nSeized++
+			if b.BridgedAssetAmount.Amount.IsPositive() {
+				m.nSeizedX++
+			}
+			// never seize a borrow at or below its threshold (the module compares 18-decimal quotients: 1e-15 slack)
+			lim := new(big.Rat).Mul(thr, new(big.Rat).Sub(one, big.NewRat(1, 1_000_000_000_000_000)))
+			if ratio.Cmp(lim) <= 0 {
+				r, _ := ratio.Float64()
+				t, _ := thr.Float64()
+				m.fail("C09.safe-borrow-never-seized", kind, "step %d (%s): borrow %d seized at debt/collateral %.9f, its liquidation threshold is %.9f (debt %s + interest %s, collateral %s)", i, op.K, b.ID, r, t, b.AmountOut, b.InterestAccumulated, b.AmountIn)
+			}
+			pair := m.pairByID(b.PairID)
+			d := ldDenom(m.assetIdx(pair.AssetIn))
+			if _, ok := seizedByDenom[d]; !ok {
+				seizedByDenom[d] = sdk.ZeroInt()
+			}
+			seizedByDenom[d] = seizedByDenom[d].Add(b.AmountIn.Amount)
+			// exactly one locked record and one auction for it
+			n := 0
+			for _, lv := range c.App.NewliqKeeper.GetLockedVaults(c.Ctx) {
+				if lv.InitiatorType == "lend" && lv.OriginalVaultId == b.ID {
+					n++
+					na := 0
+					for _, a := range c.App.NewaucKeeper.GetAuctions(c.Ctx) {
+						if a.LockedVaultId == lv.LockedVaultId {
+							na++
+							if !a.CollateralToken.Amount.Equal(b.AmountIn.Amount) {
+								m.fail("C09.seizure-moves-recorded-collateral", kind, "step %d: auction %d for borrow %d offers %s, recorded collateral %s", i, a.AuctionId, b.ID, a.CollateralToken, b.AmountIn)
+							}
+						}
+					}
+					if na != 1 {
+						m.fail("C09.one-auction-per-seizure", kind, "step %d: borrow %d seized, %d auctions opened for its locked record", i, b.ID, na)
+					}
+				}
+			}
+			if n != 1 {
+				m.fail("C09.one-auction-per-seizure", kind, "step %d: borrow %d seized, %d locked records", i, b.ID, n)
+			}
+			delete(m.unsafeFor, b.ID)
+			continue
+		}
+		if b.IsLiquidated {
+			continue
+		}
+		if sweep {
+			lim := new(big.Rat).Mul(thr, new(big.Rat).Add(one, big.NewRat(1, 1_000_000_000_000)))
+			if ratio.Cmp(lim) > 0 {
+				m.unsafeFor[b.ID]++
+				batch := int(m.cs.Cfg.Liq.Batch)
+				if batch < 1 {
+					batch = 1
+				}
+				bound := 2*((len(now)+batch-1)/batch) + 1
+				if m.unsafeFor[b.ID] > bound {
+					// can the pool hand the recorded collateral over at all? (a cross-pool borrow's bridged amount has left it,
+					// other borrowers may hold the rest)
+					if l, ok := m.k.GetLend(c.Ctx, b.LendingID); ok {
+						pool, _ := m.k.GetPool(c.Ctx, l.PoolID)
+						pair := m.pairByID(b.PairID)
+						if c.ModBal(pool.ModuleName, ldDenom(m.assetIdx(pair.AssetIn))).LT(b.AmountIn.Amount) {
+							kind = "pool-cannot-fund-seizure"
+						}
+					}
+					r, _ := ratio.Float64()
+					t, _ := thr.Float64()
+					m.fail("C09.unsafe-borrow-seized-within-two-sweeps", kind, "step %d: borrow %d has been beyond its threshold (%.9f > %.9f) for %d sweeps; %d borrows, batch %d", i, b.ID, r, t, m.unsafeFor[b.ID], len(now), batch)
+				}
+			} else {
+				delete(m.unsafeFor, b.ID)
+				near := new(big.Rat).Mul(thr, big.NewRat(98, 100))
+				if ratio.Cmp(near) >= 0 {
+					m.nNearSafe++
+				}
+			}
+		}
+	}
+	for d, want := range seizedByDenom {
+		got := c.ModBal(auctypes.ModuleName, d).Sub(pre.custody[d])
+		// bids in the same step can only take collateral out; a sweep or a liquidate message pays nothing out
+		if !got.Equal(want) {
+			m.fail("C09.seizure-moves-recorded-collateral", d, "step %d (%s): auction custody of %s grew by %s, the seized borrows recorded %s", i, op.K, d, got, want)
+		}
+	}
+	if a := len(c.App.NewaucKeeper.GetAuctions(c.Ctx)); a < pre.aucs {
+		m.nAucClosed += pre.aucs - a
+	}
 }
 
 // ltvOf returns the loan-to-value limit that applies to borrow b.
@@ -731,6 +1005,10 @@ func (m *ldMachine) finish() {
 	if m.nRewarded > 0 {
 		r.Class("lend-position-credited-with-rewards")
 	}
+	r.ClassN("borrows-seized", m.nSeized)
+	r.ClassN("borrows-seized-cross-pool", m.nSeizedX)
+	r.ClassN("borrows-within-2pct-of-threshold-surviving-a-sweep", m.nNearSafe)
+	r.ClassN("borrow-auctions-closed", m.nAucClosed)
 	nb := m.ok["borrow"] + m.ok["borrowalt"]
 	if nb > 0 && m.ok["block"] > 0 && (m.ok["repay"]+m.ok["draw"]+m.ok["closeborrow"]+m.ok["withdraw"]) > 0 {
 		r.NonTrivialSig(rec.Sig(m.cs), func() interface{} {
@@ -766,6 +1044,51 @@ func init() {
 		}
 		r.Eval()
 		m := newLdMachine(t, r, "C08", &cs)
+		for i, op := range cs.Ops {
+			m.apply(i, op)
+		}
+		m.finish()
+	}
+}
+
+func genLdLiq(rt *rapid.T) *ldLiq {
+	return &ldLiq{Batch: uint64(rapid.SampledFrom([]int{1, 2, 3, 5, 200}).Draw(rt, "liqbatch")), Duration: uint64(rapid.SampledFrom([]int{60, 600, 7200}).Draw(rt, "aucdur")),
+		Premium: rapid.SampledFrom([]string{"1.1", "1.2"}).Draw(rt, "premium"), Discount: rapid.SampledFrom([]string{"0.7", "0.9"}).Draw(rt, "discount")}
+}
+
+func TestC09_borrows(t *testing.T) {
+	r := rec.New("C09", "borrows")
+	t.Cleanup(r.Flush)
+	rapid.Check(t, func(rt *rapid.T) {
+		r.Guard(func() {
+			r.Eval()
+			cs := &ldCase{Cfg: genLdCfg(rt)}
+			cs.Cfg.Liq = genLdLiq(rt)
+			m := newLdMachine(rt, r, "C09", cs)
+			n := rapid.IntRange(20, 70).Draw(rt, "nops")
+			for i := 0; i < n; i++ {
+				op := m.genOp(rt, i)
+				cs.Ops = append(cs.Ops, op)
+				m.apply(i, op)
+			}
+			m.finish()
+			if m.nSeized > 0 {
+				r.NonTrivialSig(rec.Sig(cs), func() interface{} {
+					return map[string]interface{}{"ops": len(cs.Ops), "seized": m.nSeized, "seized_cross_pool": m.nSeizedX, "near_threshold_survivors": m.nNearSafe, "auctions_closed": m.nAucClosed}
+				})
+			}
+		})
+	})
+}
+
+func init() {
+	replayers["C09.borrows"] = func(t *testing.T, r *rec.Rec, raw json.RawMessage) {
+		var cs ldCase
+		if err := json.Unmarshal(raw, &cs); err != nil {
+			t.Fatal(err)
+		}
+		r.Eval()
+		m := newLdMachine(t, r, "C09", &cs)
 		for i, op := range cs.Ops {
 			m.apply(i, op)
 		}
